@@ -221,6 +221,7 @@ func runCase(c Case) vh.Result {
 	droppedTotal := 0.0 // sum over generations of dropped_chunks_total
 	var diskAtStart int64 // bytes in the queue directory when the current generation started
 	spill, restartAfterHandback, handbackSeen, armed := false, false, false, false
+	slowMachine := false
 	emptied := map[string]bool{} // chunk files emptied by the harness before a restart: corrupt, to be removed and counted as dropped once loaded
 	damaged := false
 
@@ -286,7 +287,18 @@ func runCase(c Case) vh.Result {
 		select {
 		case <-doneCh:
 		case <-time.After(20 * time.Second):
-			return vh.Fail("buffer:destroy-hang", "Destroy did not return within 20s\n%s", vh.GoroutineDump())
+			dump := vh.GoroutineDump()
+			if !busyNotBlocked(dump) {
+				return vh.Fail("buffer:destroy-hang", "Destroy did not return within 20s\n%s", dump)
+			}
+			// a goroutine of the buffer sits in a file system call or is waiting for a CPU: the machine is slow (seen with
+			// the disk saturated by other jobs), nothing is blocked. Wait for the operation instead of judging it.
+			slowMachine = true
+			select {
+			case <-doneCh:
+			case <-time.After(10 * time.Minute):
+				return vh.Fail("buffer:destroy-hang", "Destroy did not return within 10 min\n%s", vh.GoroutineDump())
+			}
 		}
 		select {
 		case <-g.cons.done:
@@ -428,8 +440,18 @@ func runCase(c Case) vh.Result {
 				select {
 				case <-done:
 				case <-time.After(20 * time.Second):
-					res.Violation = vh.Fail("buffer:accept-blocked", "op %d: Accept did not return within 20s while the consumer stalls\n%s", oi, vh.GoroutineDump())
-					return res
+					dump := vh.GoroutineDump()
+					if !busyNotBlocked(dump) {
+						res.Violation = vh.Fail("buffer:accept-blocked", "op %d: Accept did not return within 20s while the consumer stalls\n%s", oi, dump)
+						return res
+					}
+					slowMachine = true // see destroy: in a system call or runnable, i.e. slow, not blocked
+					select {
+					case <-done:
+					case <-time.After(10 * time.Minute):
+						res.Violation = vh.Fail("buffer:accept-blocked", "op %d: Accept did not return within 10 min while the consumer stalls\n%s", oi, vh.GoroutineDump())
+						return res
+					}
 				}
 				if checkDrop {
 					m1 := vh.Gather(g.mf)
@@ -568,6 +590,9 @@ func runCase(c Case) vh.Result {
 	if damaged {
 		res.Classes = append(res.Classes, "damage-found-at-a-restart(emptied-file/.tmp-leftovers)")
 	}
+	if slowMachine {
+		res.Classes = append(res.Classes, "watchdog-tripped-while-a-buffer-goroutine-was-in-a-system-call-or-runnable(slow machine, waited)")
+	}
 	if c.BadDir && c.BadKind == 1 {
 		res.Classes = append(res.Classes, "directory-cannot-be-opened")
 	}
@@ -645,3 +670,23 @@ func TestC03Buffer(t *testing.T) {
 	})
 }
 
+
+// busyNotBlocked tells a slow machine from a blocked buffer: it reports whether some goroutine that is executing code of
+// the agent is in a system call (file I/O) or runnable/running in the dump - such a goroutine makes progress as soon as
+// the kernel or the scheduler lets it, whereas a blocked Accept/Destroy shows only goroutines waiting on channels, timers
+// or locks.
+func busyNotBlocked(dump string) bool {
+	for _, block := range strings.Split(dump, "\n\n") {
+		head, body, ok := strings.Cut(strings.TrimSpace(block), "\n")
+		if !ok || !strings.HasPrefix(head, "goroutine ") || strings.Contains(body, "vh.GoroutineDump") {
+			continue
+		}
+		if !strings.Contains(body, "github.com/relex/slog-agent/") {
+			continue
+		}
+		if strings.Contains(head, "[syscall") || strings.Contains(head, "[runnable") || strings.Contains(head, "[running") {
+			return true
+		}
+	}
+	return false
+}
